@@ -673,7 +673,7 @@ def main():
         run(chk, 4000, 160000, 3, 800, 60000, 2000)
     else:
         run(chk, 200, 6400, 2, 60, 5000, 300)
-        if chk.broken() and not chk.spec_failures:
+        if (chk.broken() or chk.anchor_changed) and not chk.spec_failures:
             run(chk, 600, 8000, 3, 80, 3000, 0)
     chk.finish()
 
